@@ -23,6 +23,7 @@ for f in sys.argv[1:]:
             res[r['dir']]['_r'] = r
 seeded = os.path.join(here, 'seeded')
 os.makedirs(seeded, exist_ok=True)
+NOTES = json.load(open(os.path.join(seeded, 'NOTES.json'))) if os.path.exists(os.path.join(seeded, 'NOTES.json')) else {}
 rows = []
 for d in sorted(set(res) | set(suite)):
     r = (res.get(d) or {}).get('_r') or suite.get(d)
@@ -48,10 +49,13 @@ for d in sorted(set(res) | set(suite)):
                                      'pinned_suite_stable_tests_broken': (s or {}).get('suite_broken', 'not run by me (agent ran it)'),
                                      'how': 'tools/seedeval.py in a scratch worktree of /repo under /tmp/sv (removed afterwards)'},
                  'detected_by': checks})
+    if name in NOTES:
+        meta['note'] = NOTES[name]
     json.dump(meta, open(os.path.join(dst, 'meta.json'), 'w'), indent=1)
     det = [k for k, v in checks.items() if v['exit'] == 1]
     rows.append((name, pid, meta.get('summary', '')[:150].replace('|', '/'), meta.get('needs', '')[:150].replace('|', '/'),
-                 ', '.join('%s (%s)' % (k, '; '.join(checks[k]['signatures'][:2])[:110]) for k in det) or 'NOT DETECTED'))
+                 (', '.join('%s (%s)' % (k, '; '.join(checks[k]['signatures'][:2])[:110]) for k in det) or 'not reported by the quick tier at VERIF_SEED=1') +
+                 ((' - ' + NOTES[name].replace('|', '/')) if name in NOTES else '')))
 with open(os.path.join(seeded, 'README.md'), 'w') as fh:
     fh.write('# Independently seeded breaking changes\n\nEach directory holds `patch.diff` (apply with `git -C /repo apply`), `demo.py` '
              '(passes on the unchanged tree, fails with the patch) and `meta.json` (what it breaks, what it needs to manifest, what was run, '
